@@ -39,25 +39,30 @@ def _get_leaf_tensors(tensors: Iterable[Tensor], excluded: Iterable[Tensor]) -> 
         raise ValueError("All `excluded` tensors should have a `grad_fn`.")
 
     accumulate_grads = _get_descendant_accumulate_grads(
-        roots={tensor.grad_fn for tensor in tensors},
-        excluded_nodes={tensor.grad_fn for tensor in excluded},
+        roots={(tensor.grad_fn, tensor.output_nr) for tensor in tensors},
+        excluded_edges={(tensor.grad_fn, tensor.output_nr) for tensor in excluded},
     )
     leaves = {g.variable for g in accumulate_grads}
 
     return leaves
 
 
-def _get_descendant_accumulate_grads(roots: set[Node], excluded_nodes: set[Node]) -> set[Node]:
+def _get_descendant_accumulate_grads(
+    roots: set[tuple[Node, int]], excluded_edges: set[tuple[Node, int]]
+) -> set[Node]:
     """
-    Gets the AccumulateGrad descendants of the specified nodes.
+    Gets the AccumulateGrad descendants of the specified gradient edges.
 
-    :param roots: Root nodes from which the graph traversal should start.
-    :param excluded_nodes: Nodes excluded from the graph traversal.
+    :param roots: Gradient edges (node, output number) from which the graph traversal should start.
+    :param excluded_edges: Gradient edges (node, output number) excluded from the graph traversal. A
+        tensor is identified by its gradient edge rather than by its ``grad_fn`` alone, because the
+        outputs of a multi-output function (e.g. ``unbind``, ``chunk``, ``split``) share their
+        ``grad_fn``: excluding one of them must not exclude the others.
     """
 
-    excluded_nodes = set(excluded_nodes)  # Re-instantiate set to avoid modifying input
+    visited = {node for node, output_nr in roots if (node, output_nr) not in excluded_edges}
     result = set()
-    nodes_to_traverse = deque(roots - excluded_nodes)
+    nodes_to_traverse = deque(visited)
 
     # This implementation more or less follows what is advised in
     # https://discuss.pytorch.org/t/autograd-graph-traversal/213658 and what was suggested in
@@ -68,9 +73,10 @@ def _get_descendant_accumulate_grads(roots: set[Node], excluded_nodes: set[Node]
         if node.__class__.__name__ == "AccumulateGrad":
             result.add(node)
 
-        for child, _ in node.next_functions:
-            if child is not None and child not in excluded_nodes:
-                nodes_to_traverse.append(child)  # Append to the right
-                excluded_nodes.add(child)
+        for child, output_nr in node.next_functions:
+            if child is None or (child, output_nr) in excluded_edges or child in visited:
+                continue
+            nodes_to_traverse.append(child)  # Append to the right
+            visited.add(child)
 
     return result
